@@ -446,6 +446,55 @@ theorem dsl_lowering_eq_tree_reading (syn : Syntax) (d : ADef) (hc : DDV.Props.C
   rw [manTransform_render syn d hb hn h]
   exact DDV.Props.C16.front_ends_agree syn d hc
 
+
+/-- **A missing required key is an error, never a default**: register (`address`, `size_bits`), command and
+    buffer (`address`), field (`base`, `start`), ref (`target`, `override`), repeat (`count`, `stride`). -/
+theorem register_requires_address (syn : Syntax) (g : GlobalConfig) (name : String) (kvs : MKvs)
+    (h : mhas kvs "address" = false) : manRegister syn g name kvs = .error missingKey := by
+  simp [manRegister, h, bind, Except.bind, throw, throwThe, MonadExceptOf.throw]
+
+theorem register_requires_size_bits (syn : Syntax) (g : GlobalConfig) (name : String) (kvs : MKvs)
+    (h : mhas kvs "size_bits" = false) : manRegister syn g name kvs = .error missingKey := by
+  unfold manRegister
+  cases ha : mhas kvs "address" <;> simp [h, ha, bind, Except.bind, pure, Except.pure, throw, throwThe, MonadExceptOf.throw]
+
+theorem command_requires_address (syn : Syntax) (g : GlobalConfig) (name : String) (kvs : MKvs)
+    (h : mhas kvs "address" = false) : manCommand syn g name kvs = .error missingKey := by
+  simp [manCommand, h, bind, Except.bind, throw, throwThe, MonadExceptOf.throw]
+
+theorem buffer_requires_address (syn : Syntax) (g : GlobalConfig) (name : String) (kvs : MKvs)
+    (h : mhas kvs "address" = false) : manBuffer syn g name kvs = .error missingKey := by
+  simp [manBuffer, h, bind, Except.bind, throw, throwThe, MonadExceptOf.throw]
+
+theorem field_requires_base_and_start (syn : Syntax) (g : GlobalConfig) (name : String) (kvs : MKvs)
+    (h : mhas kvs "base" = false ∨ mhas kvs "start" = false) : manFieldV syn g name (.map kvs) = .error missingKey := by
+  unfold manFieldV
+  rcases h with h | h
+  · simp [asMapV, h, bind, Except.bind, pure, Except.pure, throw, throwThe, MonadExceptOf.throw]
+  · cases hb : mhas kvs "base" <;> simp [asMapV, h, hb, bind, Except.bind, pure, Except.pure, throw, throwThe, MonadExceptOf.throw]
+
+theorem ref_requires_target_and_override (syn : Syntax) (name : String) (kvs : MKvs)
+    (h : mhas kvs "target" = false ∨ mhas kvs "override" = false) : manRef syn name kvs = .error missingKey := by
+  unfold manRef
+  rcases h with h | h
+  · simp [h, bind, Except.bind, pure, Except.pure, throw, throwThe, MonadExceptOf.throw]
+  · cases hb : mhas kvs "target" <;> simp [h, hb, bind, Except.bind, pure, Except.pure, throw, throwThe, MonadExceptOf.throw]
+
+theorem object_requires_type (syn : Syntax) (g : GlobalConfig) (name : String) (kvs : MKvs)
+    (h : mget kvs "type" = none) : manObjectV syn g name (.map kvs) = .error missingKey := by
+  simp [manObjectV, h, bind, Except.bind, throw, throwThe, MonadExceptOf.throw]
+
+/-- **The three `Value` impls read an integer every syntax can carry alike**: unsigned below 2^63, signed
+    within i64 - whatever the parser (`serde_json`'s `as_u64` / `as_i64`, the `i64` of YAML and TOML). -/
+theorem as_uint_agrees (s1 s2 : Syntax) (n : Int) (h : 0 ≤ n ∧ n < 2 ^ 63) : asUintV s1 (.int n) = asUintV s2 (.int n) := by
+  obtain ⟨h1, h2⟩ := h
+  have h3 : n < 18446744073709551616 := by omega
+  have h4 : n < 9223372036854775808 := by omega
+  cases s1 <;> cases s2 <;> simp [asUintV, h1, h3, h4]
+
+theorem as_int_agrees (s1 s2 : Syntax) (n : Int) : asIntV s1 (.int n) = asIntV s2 (.int n) := by
+  cases s1 <;> cases s2 <;> rfl
+
 /-- Non-vacuity: a block with a register, a command and a buffer, and a ref with an override, lie in the fragment. -/
 example : ObjsIn .yaml [AObj.block { name := "Bank" } (some 16) (some ⟨2, 8⟩)
     [AObj.register { name := "Ctrl" } none none none 5 12 (some (.int 0xABC)) none none none
